@@ -265,3 +265,188 @@ Definition check_C07 (c : case) : Z :=
       verdict (obs_eqb mo (c_out c)) (ms_spec d1 n1 d2 n2 m y m' y')
   | _, _, _ => V_MALFORMED
   end.
+
+(* ---------------------------------------------------------------- C09 / C10 / C15 *)
+From Astro Require Import ClockProofs OffsetProofs.
+
+Definition date_eqb_ (a b : date) : bool :=
+  let '(y1, m1, d1) := a in let '(y2, m2, d2) := b in (y1 =? y2) && (m1 =? m2) && (d1 =? d2).
+Definition lfields (d n o : Z) : (Z * Z * Z) * (Z * Z * Z * Z) :=
+  let l := d * NANOS_PER_DAY + n + o * NANOS_PER_SEC in
+  (days_to_date (l / NANOS_PER_DAY), clock_fields (l mod NANOS_PER_DAY)).
+Definition fields_eqb (a b : (Z * Z * Z) * (Z * Z * Z * Z)) : bool :=
+  let '((y1, m1, d1), (h1, mi1, s1, ns1)) := a in let '((y2, m2, d2), (h2, mi2, s2, ns2)) := b in
+  (y1 =? y2) && (m1 =? m2) && (d1 =? d2) && (h1 =? h2) && (mi1 =? mi2) && (s1 =? s2) && (ns1 =? ns2).
+Definition repr_ok (d n : Z) : bool := in_i32b d && (0 <=? n) && (n <? NANOS_PER_DAY).
+(* would local fields F under offset o be a representable DateTime? *)
+Definition local_repr (F : (Z * Z * Z) * (Z * Z * Z * Z)) (o : Z) : bool :=
+  let '((y, m, d), (h, mi, s, ns)) := F in
+  inst_in_rangeb (rd (y, m, d) * NANOS_PER_DAY + of_fields h mi s ns - o * NANOS_PER_SEC).
+
+Definition dt_set_model (f : Z) (v : DT) (x : Z) : res DT :=
+  match f with
+  | 0 => dt_set_year v x | 1 => dt_set_month v x | 2 => dt_set_day v x | 3 => dt_set_day_of_year v x
+  | 4 => dt_set_hour v x | 5 => dt_set_minute v x | 6 => dt_set_second v x
+  | 7 => dt_set_milli v x | 8 => dt_set_micro v x | _ => dt_set_nano v x end.
+(* the fields the setter should produce, or None when the value must be refused *)
+Definition set_target (f : Z) (F : (Z * Z * Z) * (Z * Z * Z * Z)) (x : Z) : option ((Z * Z * Z) * (Z * Z * Z * Z)) :=
+  let '((y, m, d), (h, mi, s, ns)) := F in
+  let chk_date (t : date) := if validb t && in_rangeb t then Some (t, (h, mi, s, ns)) else None in
+  match f with
+  | 0 => chk_date (x, m, d) | 1 => chk_date (y, x, d) | 2 => chk_date (y, m, x)
+  | 3 => let t := rd (y, 1, 1) + x - 1 in
+         if (1 <=? x) && (x <=? ylen y) && in_i32b t then Some (days_to_date t, (h, mi, s, ns)) else None
+  | 4 => if x <=? 23 then Some ((y, m, d), (x, mi, s, ns)) else None
+  | 5 => if x <=? 59 then Some ((y, m, d), (h, x, s, ns)) else None
+  | 6 => if x <=? 59 then Some ((y, m, d), (h, mi, x, ns)) else None
+  | 7 => if x <=? 999 then Some ((y, m, d), (h, mi, s, x * 1000000 + ns mod 1000000)) else None
+  | 8 => if x <=? 999999 then Some ((y, m, d), (h, mi, s, x * 1000 + ns mod 1000)) else None
+  | _ => if x <=? 999999999 then Some ((y, m, d), (h, mi, s, x)) else None
+  end.
+Definition clear_target (w : Z) (F : (Z * Z * Z) * (Z * Z * Z * Z)) : (Z * Z * Z) * (Z * Z * Z * Z) :=
+  let '((y, m, d), (h, mi, s, ns)) := F in
+  match w with
+  | 0 => ((1, 1, 1), (0, 0, 0, 0)) | 1 => ((y, 1, 1), (0, 0, 0, 0)) | 2 => ((y, m, 1), (0, 0, 0, 0))
+  | 3 => ((y, m, d), (0, 0, 0, 0)) | 4 => ((y, m, d), (h, 0, 0, 0)) | 5 => ((y, m, d), (h, mi, 0, 0))
+  | 6 => ((y, m, d), (h, mi, s, 0)) | 7 => ((y, m, d), (h, mi, s, ns / 1000000 * 1000000))
+  | _ => ((y, m, d), (h, mi, s, ns / 1000 * 1000)) end.
+Definition dt_clear_model (w : Z) (v : DT) : res DT :=
+  match w with
+  | 0 => dt_clear_until_year v | 1 => dt_clear_until_month v | 2 => dt_clear_until_day v | 3 => dt_clear_until_hour v
+  | 4 => dt_clear_until_minute v | 5 => dt_clear_until_second v | 6 => dt_clear_until_milli v
+  | 7 => dt_clear_until_micro v | _ => dt_clear_until_nano v end.
+Definition out_has_fields (out : obs) (F : (Z * Z * Z) * (Z * Z * Z * Z)) (o : Z) : bool :=
+  match out with OOk [d'; n'; o'] [] => repr_ok d' n' && (o' =? o) && fields_eqb (lfields d' n' o') F | _ => false end.
+
+Definition tm_set_model (f : Z) (t : TM) (x : Z) : res TM :=
+  match f with 4 => time_set_hour t x | 5 => time_set_minute t x | 6 => time_set_second t x
+             | 7 => time_set_milli t x | 8 => time_set_micro t x | _ => time_set_nano t x end.
+Definition tm_clear_model (w : Z) (t : TM) : res TM :=
+  match w with 3 => time_clear_until_hour t | 4 => time_clear_until_minute t | 5 => time_clear_until_second t
+             | 6 => time_clear_until_milli t | 7 => time_clear_until_micro t | _ => time_clear_until_nano t end.
+Definition tfields (n o : Z) := clock_fields ((n + o * NANOS_PER_SEC) mod NANOS_PER_DAY).
+Definition cf_eqb (a b : Z * Z * Z * Z) : bool :=
+  let '(h1, mi1, s1, ns1) := a in let '(h2, mi2, s2, ns2) := b in (h1 =? h2) && (mi1 =? mi2) && (s1 =? s2) && (ns1 =? ns2).
+Definition tm_has_fields (out : obs) (F : Z * Z * Z * Z) (o : Z) : bool :=
+  match out with OOk [n'; o'] [] => (0 <=? n') && (n' <? NANOS_PER_DAY) && (o' =? o) && cf_eqb (tfields n' o') F | _ => false end.
+
+Definition check_C09 (c : case) : Z :=
+  match c_op c, c_ints c with
+  | Op_dt_set, [f; d; n; o; x] =>
+      let F := lfields d n o in
+      let spec := match set_target f F x with
+                  | Some T => if local_repr T o then out_has_fields (c_out c) T o else negb (match c_out c with OOk _ _ => true | _ => false end)
+                  | None => is_oor (c_out c) end in
+      verdict (obs_eqb (obs_dt (dt_set_model f (mkDT d n o) x)) (c_out c)) spec
+  | Op_dt_clear, [w; d; n; o] =>
+      let T := clear_target w (lfields d n o) in
+      let '((y, m, dd), _) := T in
+      let spec := if in_rangeb (y, m, dd) && local_repr T o then out_has_fields (c_out c) T o else out_is_panic (c_out c) in
+      verdict (obs_eqb (obs_dt (dt_clear_model w (mkDT d n o))) (c_out c)) spec
+  | Op_time_set, [f; n; o; x] =>
+      let '(_, CF) := lfields 0 ((n + o * NANOS_PER_SEC) mod NANOS_PER_DAY) 0 in
+      let spec := match set_target f ((1, 1, 1), CF) x with
+                  | Some (_, T) => tm_has_fields (c_out c) T o
+                  | None => is_oor (c_out c) end in
+      verdict (obs_eqb (obs_tm (tm_set_model f (mkTM n o) x)) (c_out c)) spec
+  | Op_time_clear, [w; n; o] =>
+      let '(_, T) := clear_target w ((1, 1, 1), tfields n o) in
+      verdict (obs_eqb (obs_tm (tm_clear_model w (mkTM n o))) (c_out c)) (tm_has_fields (c_out c) T o)
+  | Op_date_set, [f; d; x] =>
+      let mo := obs_z (match f with 0 => set_year d x | 1 => set_month d x | 2 => set_day d x | _ => set_day_of_year d x end) in
+      let spec := match set_target f (days_to_date d, (0, 0, 0, 0)) x with
+                  | Some (T, _) => match c_out c with OOk [d'] [] => in_i32b d' && date_eqb_ (days_to_date d') T | _ => false end
+                  | None => is_oor (c_out c) end in
+      verdict (obs_eqb mo (c_out c)) spec
+  | Op_date_clear, [w; d] =>
+      let mo := obs_z (match w with 0 => date_clear_until_year d | 1 => date_clear_until_month d | _ => date_clear_until_day d end) in
+      let '(T, _) := clear_target w (days_to_date d, (0, 0, 0, 0)) in
+      let spec := if in_rangeb T then match c_out c with OOk [d'] [] => date_eqb_ (days_to_date d') T | _ => false end
+                  else out_is_panic (c_out c) in
+      verdict (obs_eqb mo (c_out c)) spec
+  | _, _ => V_MALFORMED
+  end.
+
+Definition check_C10 (c : case) : Z :=
+  match c_op c, c_ints c with
+  | Op_dt_set_offset, [d; n; o; o2] =>
+      let mo := obs_of (fun v => OOk [dt_days v; dt_nanos v; dt_off v; dt_off v] []) (dt_set_offset (mkDT d n o) o2) in
+      let spec := if inst_in_rangeb (inst d n + o2 * NANOS_PER_SEC)
+                  then obs_eqb (OOk [d; n; o2; o2] []) (c_out c) else out_is_panic (c_out c) in
+      verdict (obs_eqb mo (c_out c)) spec
+  | Op_dt_as_offset, [d; n; o; o2] =>
+      let mo := obs_of (fun v => OOk [dt_days v; dt_nanos v; dt_off v; dt_off v] []) (dt_as_offset (mkDT d n o) o2) in
+      let t := inst d n - o2 * NANOS_PER_SEC in
+      let spec := if inst_in_rangeb t
+                  then match c_out c with
+                       | OOk [d'; n'; o'; g] [] => repr_ok d' n' && (inst d' n' =? t) && (o' =? o2) && (g =? o2)
+                                                   && fields_eqb (lfields d' n' o') (lfields d n 0)
+                       | _ => false end
+                  else out_is_panic (c_out c) in
+      verdict (obs_eqb mo (c_out c)) spec
+  | Op_time_set_offset, [n; o; o2] =>
+      verdict (obs_eqb (obs_tm (Ok (time_set_offset (mkTM n o) o2))) (c_out c)) (tm_is (c_out c) n o2)
+  | Op_time_as_offset, [n; o; o2] =>
+      let spec := tm_is (c_out c) ((n - o2 * NANOS_PER_SEC) mod NANOS_PER_DAY) o2
+                  && match c_out c with OOk [n'; o'] [] => cf_eqb (tfields n' o') (tfields n 0) | _ => false end in
+      verdict (obs_eqb (obs_tm (time_as_offset (mkTM n o) o2)) (c_out c)) spec
+  | Op_offset_from_seconds, [s] =>
+      let mo := obs_of (fun o => let '(h, m, ss) := offset_resolve_hms o in OOk [o; h; m; ss] []) (offset_from_seconds s) in
+      let spec := if (-86399 <=? s) && (s <=? 86399)
+                  then match c_out c with OOk [o; h; m; ss] [] => (o =? s) && (s =? (if s <? 0 then -1 else 1) * (Z.abs h * 3600 + m * 60 + ss))
+                                                                 && (0 <=? m) && (m <=? 59) && (0 <=? ss) && (ss <=? 59) | _ => false end
+                  else is_oor (c_out c) in
+      verdict (obs_eqb mo (c_out c)) spec
+  | Op_offset_from_hms, [h; m; s] =>
+      let mo := obs_of (fun o => let '(h', m', ss) := offset_resolve_hms o in OOk [o; h'; m'; ss] []) (offset_from_hms h m s) in
+      let spec := if (-23 <=? h) && (h <=? 23) && (m <=? 59) && (s <=? 59)
+                  then obs_eqb (OOk [(if h <? 0 then -1 else 1) * (Z.abs h * 3600 + m * 60 + s); h; m; s] []) (c_out c)
+                  else is_oor (c_out c) in
+      verdict (obs_eqb mo (c_out c)) spec
+  | Op_dt_get, [d; n; o] =>
+      let v := mkDT d n o in
+      let g (r : res Z) := match r with Ok z => z | _ => -1 end in
+      let mo := OOk [g (dt_year v); g (dt_month v); g (dt_day v); g (dt_day_of_year v); g (dt_weekday v); g (dt_hour v); g (dt_minute v);
+                     g (dt_second v); g (dt_milli v); g (dt_micro v); g (dt_nano v); dt_timestamp v] [] in
+      let '((y, m, dd), (h, mi, s, ns)) := lfields d n o in
+      let ld := (d * NANOS_PER_DAY + n + o * NANOS_PER_SEC) / NANOS_PER_DAY in
+      let so := OOk [y; m; dd; 1 + ld - rd (y, 1, 1); (4 + (ld - 719162)) mod 7; h; mi; s; ns / 1000000; ns / 1000; ns;
+                     (inst d n) / NANOS_PER_SEC - EPOCH_SECS] [] in
+      verdict (obs_eqb mo (c_out c)) (obs_eqb so (c_out c))
+  | _, _ => V_MALFORMED
+  end.
+
+(* C15: strict comparison of error payloads with the model (whose payloads are proved to bracket the accepted
+   values), Ok exactly on valid arguments, and the stated range never contains the rejected value *)
+Definition err_excludes_value (out : obs) : bool :=
+  match out with OErr 1 [_; mn; mx; v; custom] => (custom =? 1) || negb ((mn <=? v) && (v <=? mx)) | OErr _ _ => false | _ => true end.
+Definition check_C15 (c : case) : Z :=
+  let out := c_out c in
+  match c_op c, c_ints c with
+  | (Op_date_from_ymd | Op_dt_from_ymd), [y; m; d] =>
+      let mo := obs_of (fun n => let '(y2, m2, d2) := days_to_date n in OOk [n; y2; m2; d2] []) (date_to_days y m d) in
+      let ok := validb (y, m, d) && in_rangeb (y, m, d) in
+      verdict (obs_eqb mo out) (err_excludes_value out && (if ok then negb (is_oor out) && negb (out_is_panic out) else is_oor out))
+  | Op_dt_from_ymdhms, [y; mo'; d; h; mi; s] =>
+      let ok := validb (y, mo', d) && in_rangeb (y, mo', d) && (h <=? 23) && (mi <=? 59) && (s <=? 59) in
+      let spec := if ok then obs_eqb (OOk [rd (y, mo', d); (h * 3600 + mi * 60 + s) * NANOS_PER_SEC; 0] []) out else is_oor out in
+      verdict (obs_eqb (obs_dt (dt_from_ymdhms y mo' d h mi s)) out) (err_excludes_value out && spec)
+  | Op_dt_from_hms, [h; mi; s] =>
+      let ok := (h <=? 23) && (mi <=? 59) && (s <=? 59) in
+      let spec := if ok then obs_eqb (OOk [0; (h * 3600 + mi * 60 + s) * NANOS_PER_SEC; 0] []) out else is_oor out in
+      verdict (obs_eqb (obs_dt (dt_from_hms h mi s)) out) (err_excludes_value out && spec)
+  | Op_time_ctor, [0; h; m; s] =>
+      let spec := if (h <=? 23) && (m <=? 59) && (s <=? 59) then tm_is out ((h * 3600 + m * 60 + s) * NANOS_PER_SEC) 0 else is_oor out in
+      verdict (obs_eqb (obs_tm (time_from_hms h m s)) out) (err_excludes_value out && spec)
+  | Op_time_ctor, [1; s] =>
+      let spec := if s <? SECS_PER_DAY then tm_is out (s * NANOS_PER_SEC) 0 else is_oor out in
+      verdict (obs_eqb (obs_tm (time_from_seconds s)) out) (err_excludes_value out && spec)
+  | Op_time_ctor, [2; n] =>
+      let spec := if n <? NANOS_PER_DAY then tm_is out n 0 else is_oor out in
+      verdict (obs_eqb (obs_tm (time_from_nanos n)) out) (err_excludes_value out && spec)
+  | (Op_offset_from_seconds | Op_offset_from_hms), _ =>
+      let v := check_C10 c in if v =? 0 then verdict true (err_excludes_value out) else v
+  | (Op_dt_set | Op_time_set | Op_date_set), _ =>
+      let v := check_C09 c in if v =? 0 then verdict true (err_excludes_value out && negb (out_is_panic out)) else v
+  | _, _ => V_MALFORMED
+  end.
